@@ -116,8 +116,23 @@ def ob_mark(a1: int, b1: int, a2: int, b2: int, mi: int, mj: int, remove: bool) 
     return rt.run(_mark, a1, b1, a2, b2, mi, mj, remove)
 
 
+def allmarks(C_):
+    """The payload marks plus every distinct mark the document itself carries (so that two marks of one type with
+    different attrs that are really present can be named - seed C16-4)."""
+    ms = list(C_.marks)
+    def walk(n):
+        for m in n.marks:
+            if not any(m.eq(x) for x in ms):
+                ms.append(m)
+        for i in range(n.child_count):
+            walk(n.child(i))
+    walk(C_.doc)
+    return ms
+
+
 def _mark(a1, b1, a2, b2, mi, mj, remove):
-    nm = len(C.marks)
+    MS = allmarks(C)
+    nm = len(MS)
     if not nm or not (0 <= a1 <= b1 <= C.size and 0 <= a2 <= b2 <= C.size and 0 <= mi < nm and 0 <= mj < nm):
         return rt.SKIP
     if "a1" in P and a1 != P["a1"]:
@@ -130,10 +145,11 @@ def _mark(a1, b1, a2, b2, mi, mj, remove):
         return rt.SKIP
     if "remove" in P and remove != P["remove"]:
         return rt.SKIP
-    if mi != mj or not (a1 <= b2 and b1 >= a2):
+    if not (a1 <= b2 and b1 >= a2):
         return rt.SKIP           # cannot merge: covered by ob_nonadjacent-style dismissal below
     K = RemoveMarkStep if remove else AddMarkStep
-    ok, why = judge(K(a1, b1, C.marks[mi]), K(a2, b2, C.marks[mj]), C.doc)
+    # mi != mj: the steps must not merge unless the merged step is still equivalent (judge accepts None)
+    ok, why = judge(K(a1, b1, MS[mi]), K(a2, b2, MS[mj]), C.doc)
     if why == "skip":
         return rt.SKIP
     return rt.fin(ok, why)
@@ -184,4 +200,13 @@ def obligations(tier, seed):
                         obs.append({"name": "mark/%s/a1=%d/m%d/%s" % (tag, a1, mk, "remove" if rem else "add"), "fn": "ob_mark",
                                     "P": dict(q, a1=a1, ms=[mk], remove=rem), "timeout": T})
         obs.append({"name": "nonadjacent/%s" % tag, "fn": "ob_nonadjacent", "P": p, "timeout": T})
+    # two marks of one type with different attrs, both present in the document (list#11: link u / link v), both orders
+    p = {"schema": "list", "doc": 11}
+    C_ = ops.payloads(common.load(p))
+    MS = allmarks(C_)
+    same = [i for i, m in enumerate(MS) if m.type.name == "link" and i >= len(C_.marks)]
+    for a1 in ((6,) if tier == "quick" else (5, 6, 7)):
+        for rem in (False, True):
+            obs.append({"name": "mark/list#11/a1=%d/sametype/%s" % (a1, "remove" if rem else "add"), "fn": "ob_mark",
+                        "P": dict(p, a1=a1, ms=same, remove=rem), "timeout": T})
     return obs
